@@ -85,6 +85,8 @@ pub trait Hooks: Send + Sync + 'static {
     /// May override the result of one completion.
     fn uring_cqe(&self, w: &UringWrite, res: i32) -> i32;
     fn probe(&self, name: &'static str);
+    /// Legal-but-unusual behaviour switch, only ever true under a simulator.
+    fn buggify(&self, name: &'static str) -> bool;
     fn api(&self, op: &'static str, topic: &str, n: usize);
 }
 
@@ -112,6 +114,11 @@ pub fn probe(name: &'static str) {
     if let Some(h) = hooks() {
         h.probe(name);
     }
+}
+
+#[inline]
+pub fn buggify(name: &'static str) -> bool {
+    hooks().map(|h| h.buggify(name)).unwrap_or(false)
 }
 
 #[inline]
